@@ -1,0 +1,13 @@
+//go:build !verif
+
+package tcpassembly
+
+import "sync"
+
+// No-op stand-ins for the verification hooks (see verif_hooks_on.go, build tag verif).
+
+func verifYield(site string) {}
+
+func verifBeforeLock(mu *sync.Mutex) {}
+
+func verifOrderConns(conns []*connection) []*connection { return conns }
